@@ -45,6 +45,18 @@ func (e *Embed) Guard(g AGuard) biscuit.Expression {
 			return biscuit.Expression{biscuit.Value{Term: biscuit.Bool(true)}, biscuit.UnaryLength}
 		}
 	}
+	if e.Kind == 9 && (g.O == "lt" || g.O == "le") {
+		// constants are the sets {0..i}: l <= r iff l.intersection(r) == l (or r.contains(l)); l < r additionally needs l != r
+		L, R := biscuit.Value{Term: e.Term(g.L)}, biscuit.Value{Term: e.Term(g.R)}
+		ex := biscuit.Expression{L, R, biscuit.BinaryIntersection, L, biscuit.BinaryEqual}
+		if (g.L+g.R)%2 != 0 {
+			ex = biscuit.Expression{R, L, biscuit.BinaryContains}
+		}
+		if g.O == "lt" {
+			ex = append(ex, L, R, biscuit.BinaryEqual, biscuit.UnaryNegate, biscuit.BinaryAnd)
+		}
+		return ex
+	}
 	if g.O == "pre" {
 		return biscuit.Expression{biscuit.Value{Term: e.Term(g.L)}, biscuit.Value{Term: e.Term(g.R)}, biscuit.BinaryPrefix}
 	}
